@@ -26,7 +26,6 @@ import (
 //verif:stub syscall.SetNonblock verifSysSetNonblock
 //verif:stub github.com/cloudwego/netpoll.setTCPNoDelay verifSetTCPNoDelay
 //verif:stub (*github.com/cloudwego/netpoll.defaultPoll).Wait verifPollWait
-//verif:stub (*github.com/cloudwego/netpoll.defaultPoll).Free verifPollFree
 
 type verifKMon struct {
 	ctlAdd, ctlDel, ctlMod int32
@@ -42,6 +41,11 @@ type verifKMon struct {
 	prepared               int32
 	finalizerRuns          int32
 	ctlErr                 int32
+	wantDisc               int32
+	delivered              int32
+	consumed               int32
+	deliveredAtFire        int32
+	readerDone             int32
 	opFree                 int32
 }
 
@@ -56,13 +60,6 @@ func verifOpenPoll() (Poll, error) {
 }
 
 func verifPollWait(p *defaultPoll) error { return nil }
-
-// Slot recycling (operatorCache.freeable/free) is the subject of C10; in the connection
-// harnesses Free is a monitor: the slot is released at most once.
-func verifPollFree(p *defaultPoll, op *FDOperator) {
-	n := atomic.AddInt32(&verifK.opFree, 1)
-	verifAssert(n == 1, "C05/poller-slot-released-twice")
-}
 
 func verifEpollCtl(epfd, op, fd int, event *epollevent) error {
 	switch op {
@@ -95,103 +92,6 @@ func verifSetTCPNoDelay(fd int, b bool) error   { return nil }
 
 func verifRunTaskSpawn(ctx context.Context, f func()) { verifSpawn(f) }
 
-// ---------------------------------------------------------------- LinkBuffer summaries
-
-//verif:stub (*github.com/cloudwego/netpoll.UnsafeLinkBuffer).book verifSumBook
-//verif:stub (*github.com/cloudwego/netpoll.UnsafeLinkBuffer).bookAck verifSumBookAck
-//verif:stub (*github.com/cloudwego/netpoll.UnsafeLinkBuffer).Next verifSumNext
-//verif:stub (*github.com/cloudwego/netpoll.UnsafeLinkBuffer).Peek verifSumPeek
-//verif:stub (*github.com/cloudwego/netpoll.UnsafeLinkBuffer).Skip verifSumSkip
-//verif:stub (*github.com/cloudwego/netpoll.UnsafeLinkBuffer).Release verifSumRelease
-//verif:stub (*github.com/cloudwego/netpoll.UnsafeLinkBuffer).Close verifSumClose
-//verif:stub (*github.com/cloudwego/netpoll.UnsafeLinkBuffer).calcMaxSize verifSumCalcMax
-//verif:stub (*github.com/cloudwego/netpoll.UnsafeLinkBuffer).resetTail verifSumResetTail
-//verif:stub (*github.com/cloudwego/netpoll.UnsafeLinkBuffer).Malloc verifSumMalloc
-//verif:stub (*github.com/cloudwego/netpoll.UnsafeLinkBuffer).Flush verifSumFlush
-//verif:stub (*github.com/cloudwego/netpoll.UnsafeLinkBuffer).GetBytes verifSumGetBytes
-//verif:stub (*github.com/cloudwego/netpoll.UnsafeLinkBuffer).readCopy verifSumReadCopy
-
-var verifDummy = make([]byte, 1)
-
-func verifSumBook(b *UnsafeLinkBuffer, bookSize, maxSize int) []byte { return verifDummy }
-
-func verifSumBookAck(b *UnsafeLinkBuffer, n int) (int, error) {
-	return int(atomic.AddInt64(&b.length, int64(n))), nil
-}
-
-var verifErrNotEnough = Exception(ErrUnsupported, "not enough")
-
-func verifSumNext(b *UnsafeLinkBuffer, n int) ([]byte, error) {
-	if n <= 0 {
-		return nil, nil
-	}
-	if b.Len() < n {
-		return nil, verifErrNotEnough
-	}
-	atomic.AddInt64(&b.length, int64(-n))
-	return verifDummy, nil
-}
-
-func verifSumPeek(b *UnsafeLinkBuffer, n int) ([]byte, error) {
-	if n <= 0 {
-		return nil, nil
-	}
-	if b.Len() < n {
-		return nil, verifErrNotEnough
-	}
-	return verifDummy, nil
-}
-
-func verifSumSkip(b *UnsafeLinkBuffer, n int) error {
-	if n <= 0 {
-		return nil
-	}
-	if b.Len() < n {
-		return verifErrNotEnough
-	}
-	atomic.AddInt64(&b.length, int64(-n))
-	return nil
-}
-
-func verifSumReadCopy(b *UnsafeLinkBuffer, p []byte) int {
-	l := len(p)
-	if has := b.Len(); has < l {
-		l = has
-	}
-	atomic.AddInt64(&b.length, int64(-l))
-	return l
-}
-
-func verifSumRelease(b *UnsafeLinkBuffer) error { return nil }
-
-func verifSumClose(b *UnsafeLinkBuffer) error {
-	atomic.StoreInt64(&b.length, 0)
-	return nil
-}
-
-func verifSumCalcMax(b *UnsafeLinkBuffer) int        { return 0 }
-func verifSumResetTail(b *UnsafeLinkBuffer, max int) {}
-
-func verifSumMalloc(b *UnsafeLinkBuffer, n int) ([]byte, error) {
-	if n <= 0 {
-		return nil, nil
-	}
-	b.mallocSize += n
-	return verifDummy, nil
-}
-
-func verifSumFlush(b *UnsafeLinkBuffer) error {
-	n := b.mallocSize
-	b.mallocSize = 0
-	atomic.AddInt64(&b.length, int64(n))
-	return nil
-}
-
-func verifSumGetBytes(b *UnsafeLinkBuffer, p [][]byte) [][]byte {
-	p[0] = verifDummy
-	return p[:1]
-}
-
 // ---------------------------------------------------------------- building a connection
 
 type verifConnCfg struct {
@@ -207,6 +107,12 @@ func verifCloseCB(i int) CloseCallback {
 		n := atomic.AddInt32(&verifK.cb[i], 1)
 		verifAssert(n == 1, "C05/close-callback-ran-twice")
 		verifAssert(atomic.LoadInt32(&verifK.inHandler) == 0, "C05/close-callback-while-handler-runs")
+		if atomic.LoadInt32(&verifK.prepared) == 1 {
+			// everything the peer sent was delivered before its hang-up: it must have been
+			// offered to the (always-consuming) handler before the close callbacks run
+			verifAssert(c.Reader().Len() == 0, "C06/close-callbacks-before-buffered-input-was-offered")
+		}
+		verifAssert(atomic.LoadInt32(&verifK.inConnect) == 0, "C09/close-callback-while-OnConnect-runs")
 		if i == 0 {
 			// registered first, so it runs last: the later one has run already
 			verifAssert(atomic.LoadInt32(&verifK.cb[1]) == 1 || atomic.LoadInt32(&verifK.cb[1]) == -1, "C05/close-callbacks-out-of-order")
@@ -237,3 +143,42 @@ func verifNewConn(cfg verifConnCfg) *connection {
 	}
 	return c
 }
+
+
+// OnConnect / OnDisconnect callbacks with order monitors (C09)
+func verifOnConnectCB(ctx context.Context, c Connection) context.Context {
+	atomic.AddInt32(&verifK.inConnect, 1)
+	verifAssert(atomic.LoadInt32(&verifK.handlerRuns) == 0, "C09/OnRequest-before-OnConnect-finished")
+	verifAssert(atomic.LoadInt32(&verifK.disconnects) == 0, "C09/OnDisconnect-before-OnConnect-finished")
+	atomic.AddInt32(&verifK.inConnect, -1)
+	atomic.StoreInt32(&verifK.connectDone, 1)
+	return ctx
+}
+
+func verifOnDisconnectCB(ctx context.Context, c Connection) {
+	n := atomic.AddInt32(&verifK.disconnects, 1)
+	verifAssert(n == 1, "C09/OnDisconnect-ran-twice")
+	verifAssert(atomic.LoadInt32(&verifK.inConnect) == 0, "C09/OnDisconnect-while-OnConnect-runs")
+	verifAssert(atomic.LoadInt32(&verifK.cbRuns) == 0, "C09/OnDisconnect-after-close-callbacks")
+}
+
+// connection with OnConnect (+OnDisconnect) and OnRequest, as server.onAccept builds it
+func verifNewConnOnConnect(h func(ctx context.Context, c Connection) error) *connection {
+	verifK = &verifKMon{}
+	runner.RunTask = verifRunTaskSpawn
+	pollmanager = newManager(1)
+	nfd := newNetFD(7, 2, 1, "tcp")
+	c := &connection{}
+	opts := &options{}
+	opts.onRequest = h
+	opts.onConnect = verifOnConnectCB
+	opts.onDisconnect = verifOnDisconnectCB
+	err := c.init(nfd, opts)
+	verifAssume(err == nil)
+	c.AddCloseCallback(verifCloseCB(0))
+	verifK.cb[1] = -1
+	return c
+}
+
+
+func runner_RunTask_set() { runner.RunTask = verifRunTaskSpawn }
